@@ -26,6 +26,11 @@ Theorem C17_kmeans_result fuel it X (cents old : seq (seq K)) labels l c n :
   kmeans_loop fuel it X cents old labels = Some (l, c, n) ->
   (l = labels /\ c = cents /\ n = it) \/ kmeans_post X (size cents) l c.
 Proof. exact: kmeans_loop_post. Qed.
+(* ... and a run of KMeans itself (it starts at pass 0 with at least one unit of fuel) always does iterate:
+   the result is never the untouched start state, whatever the start centroids and the units of the data *)
+Theorem C17_kmeans_run fuel X (cents old : seq (seq K)) labels l c n :
+  kmeans_loop fuel.+1 0 X cents old labels = Some (l, c, n) -> kmeans_post X (size cents) l c.
+Proof. exact: kmeans_run_post. Qed.
 Theorem C17_kmeans_labels_in_range (X : seq (seq K)) ncl l c : (0 < ncl)%N -> kmeans_post X ncl l c ->
   size l = size X /\ all (fun k => (k < ncl)%N) l.
 Proof. exact: kmeans_labels_in_range. Qed.
@@ -73,6 +78,7 @@ Print Assumptions C17_selection_valid.
 Print Assumptions C17_maxdis_fast_agrees.
 Print Assumptions C17_maxdis_greedy.
 Print Assumptions C17_kmeans_result.
+Print Assumptions C17_kmeans_run.
 Print Assumptions C17_kmeans_labels_in_range.
 Print Assumptions C17_centroid_is_mean.
 Print Assumptions C17_maxmin_choice.
